@@ -140,12 +140,28 @@ pub struct ExploreStats {
 /// Enumerate every complete execution of `scenario`.  `visit` gets the trace
 /// and the observation of each leaf.  `cap` bounds the number of leaves (a hit
 /// cap is reported, never silently ignored).
+/// Wall-clock budget of one exploration (seconds): an engine-level cap, so that a subject whose
+/// choice tree does not terminate (e.g. a rejection loop that the alphabet always rejects) ends as a
+/// *capped* exploration -- reported as such, never as a verdict -- instead of hanging the check.
+pub fn explore_wall_budget() -> std::time::Duration {
+    let s = std::env::var("VERIF_EXPLORE_WALL_S").ok().and_then(|x| x.parse::<u64>().ok()).unwrap_or_else(|| {
+        if std::env::var("VERIF_TIER").map(|t| t == "thorough").unwrap_or(false) {
+            3600
+        } else {
+            240
+        }
+    });
+    std::time::Duration::from_secs(s)
+}
+
 pub fn explore<O>(
     mut scenario: impl FnMut(&mut Env) -> O,
     mut visit: impl FnMut(&[Choice], Ratio, O),
     cap: u64,
 ) -> ExploreStats {
     let mut stats = ExploreStats::default();
+    let started = std::time::Instant::now();
+    let budget = explore_wall_budget();
     let mut prefix: Vec<Choice> = Vec::new();
     let mut total = Ratio::ZERO;
     loop {
@@ -180,7 +196,7 @@ pub fn explore<O>(
         if t.is_empty() {
             break;
         }
-        if stats.leaves >= cap {
+        if stats.leaves >= cap || (stats.leaves % 4096 == 0 && started.elapsed() > budget) {
             stats.capped = true;
             break;
         }
